@@ -19,7 +19,7 @@ func init() {
 		Rules: map[string]string{
 			"R1": "call closure of the auto-play entry point reaches only pass/ready/check/fold/pay; no known-nil error returned",
 			"R2": "guard ↔ action agreement and priority order",
-			"R3": "pay amounts are the posted ante / blind for the player's position",
+			"R3": "pay amounts are the posted ante / blind for the player's position, and the Actions wrapper and engine adapter forward operation, id and amount unchanged to the engine (shared with C18.R5)",
 			"R4": "automation only when suspended or inside the action-time timer callback (not cancelled)",
 			"R5": "timer discipline: the runner's time bank is created once, by the constructor (a replaced time bank orphans the pending task, which then auto-plays a stale request before the new thinking time has elapsed); a view discarded by the staleness filter performs no time-bank operation",
 		},
@@ -123,6 +123,10 @@ func checkC19(c *Ctx) {
 		c.Bad("R1", "player-runner", "-", "no runner with a suspend status found")
 		return
 	}
+	// ---------------- R3 (part): what auto-play decides to submit is what reaches the engine — the Actions
+	// wrapper and the engine adapter forward the same-named operation with the same id and amount, unchanged
+	// (shared with C18.R5)
+	checkActionForwarding(c, "R3")
 	// ---------------- R5 timer discipline (shared with C18.R7)
 	checkRunnerTimer(c, "R5", runnerT, entry)
 	allowed := map[string]bool{"Pass": true, "Ready": true, "Check": true, "Fold": true, "Pay": true}
